@@ -53,7 +53,8 @@ PROPERTIES = {
         modules=["contracts.c18_names", "contracts.c04_modules", "contracts.c11_clients"],
         bounded=[_bounded.lazy("contracts.c18_names", "bounded_names"), _bounded.lazy("contracts.c18_names", "bounded_pairs"),
                  _bounded.lazy("contracts.c18_names", "bounded_wire_names"),
-                 _bounded.lazy("contracts.e2e_variables", "bounded_variables"), _bounded.lazy("contracts.e2e_builder", "bounded_builder")],
+                 _bounded.lazy("contracts.e2e_variables", "bounded_variables"), _bounded.lazy("contracts.e2e_builder", "bounded_builder"),
+                 _bounded.lazy("contracts.e2e_outcomes", "bounded_outcomes")],
         explanation="process_name for all strings in SMT string theory; str_to_snake_case by exhaustive bounded enumeration",
         assumptions=["A_snake: assumed contract on str_to_snake_case (regex lookahead is outside the solvers' fragment), bounded stand-in only"],
     ),
